@@ -186,7 +186,7 @@ ADDENDA4 = {
     "C12": " Every step of the annotation fold builds on the accumulated annotations (R12.9).",
     "C14": " Same registry rules as C10 (R14.6, R14.7) and cycle-guard rule (R14.8).",
     "C15": " A sort applied to struct fields has a key the fields carry (R15.5); no wire-relevant iteration - loop, comprehension, explicit iterator, also through helper parameters - takes a struct's fields in declaration order (R15.6).",
-    "C16": " A size computed by walking down a nested type accumulates over every level (R16.7); running out of input is not turned into a quiet end of iteration: short islice of a generator that can end, StopIteration inside map() (R16.8).",
+    "C16": " A size computed by walking down a nested type accumulates over every level (R16.7); running out of input is not turned into a quiet end of iteration: short islice of a generator that can end, StopIteration inside map() (R16.8). A memo of per-type sizes is keyed by every field that tells two schema types apart, also when the key is built in place (R16.9).",
     "C18": " A generated table that is bisected is emitted in the order the search compares by (R18.7); Encode/Decode do not write into the wrapper object's own storage through references or iterators (R18.8).",
     "C19": " A hand-written distance across a counter wrap counts the step from the maximum to 0 (W1).",
     "C20": " A dotted module name is never used as one path component (R20.6); a copied context record does not keep fields derived from the importer's file (R20.7).",
